@@ -1,6 +1,6 @@
 SPECIFICATION TrSpec
 CONSTANTS
-    Groups = {"a", "b", "c"}
+    Groups = {"a", "b", "c", "dd"}
     Kinds = {"int", "float", "str", "bool", "none"}
     Values <- MCNoValues
     Cfgs <- MCNoCfgs
